@@ -15,7 +15,13 @@
 //      the parameter set *defines*; agreement of x, y to a conditioning-aware bound >= 1e-6 m.
 //
 // One case = one parameter set (secant or tangent, either hemisphere, ellipsoid) and P points
-// inside the +-8 deg x +-30 deg box around its origin.
+// inside the +-8 deg x +-30 deg box around its origin.  For 40 % of the cases a *sibling* converter
+// is alive at the same time: the same parameter set but for one parameter (k0, latitude0, the false
+// origin, the semi-major axis at equal eccentricity, or longitude0).  Every library call of the
+// point (forward image, each of the 8 finite-difference stencil points, inverse) is then made on
+// the two converters in turn with bit-identical arguments, and every oracle is applied unchanged
+// to each of them: state that leaks from one converter object to another (a cache keyed on part
+// of the parameters, a static buffer) shows as the sibling's projection in place of one's own.
 #include <Eigen/Core>
 #include "romea_core_common/geodesy/LambertConverter.hpp"
 #include "vh.hpp"
@@ -175,6 +181,100 @@ static PSet random_set(vh::Rng & r)
 }
 
 // ------------------------------------------------------------------------------------------
+// One converter under test with everything its oracles need.  A case has one unit, or two
+// ("siblings": parameter sets that differ in a single parameter) whose calls are interleaved.
+// ------------------------------------------------------------------------------------------
+struct Unit
+{
+  PSet p;
+  Ref ref;
+  LambertConverter conv;
+  double e_lib;
+  LD snyder_tol;
+  bool south;
+  bool inverse_dead = false;     // after a non-terminating inverse stop calling it for this unit
+  Unit(const PSet & ps, const EarthEllipsoid & ell)
+  : p(ps),
+    conv(ps.tangent ?
+      LambertConverter(
+        LambertConverter::TangentProjectionParameters{ps.lat0, ps.lon0, ps.k0, ps.x0, ps.y0}, ell) :
+      LambertConverter(
+        LambertConverter::SecantProjectionParameters{ps.lon0, ps.lat0, ps.lat1, ps.lat2, ps.x0, ps.y0}, ell)),
+    e_lib(ell.e), south(ps.lat0 < 0)
+  {
+    if (p.tangent) {ref.tangent(p.a, p.b, p.lat0, p.lon0, p.k0, p.x0, p.y0);} else {
+      ref.secant(p.a, p.b, p.lat0, p.lon0, p.lat1, p.lat2, p.x0, p.y0);
+    }
+    // conditioning of the cone constants: n = d(ln m)/d(ln t) of the two parallels, so its
+    // relative rounding error is ~ eps / |ln t1 - ln t2|; it moves a point by ~ |rho - rho0| + |rho sin|
+    // (the common part rho0 cancels between ys and rho).  Floor 1e-6 m as in the design.
+    LD cond = 1;
+    if (!p.tangent) {cond = 1 / fabsl(logl(t_of(p.lat1, ref.e)) - logl(t_of(p.lat2, ref.e)));}
+    const LD EPS = std::numeric_limits<double>::epsilon();
+    snyder_tol = std::max<LD>(1e-6L, 64 * EPS * (cond + 4) * (fabsl(ref.rho0) + fabsl(p.x0) + fabsl(p.y0)));
+  }
+};
+
+static LambertConverter::ProjectionParameters library_constants(const PSet & p)
+{
+  EarthEllipsoid ell(p.a, p.b);
+  return p.tangent ?
+         LambertConverter::computeProjectionParameters(
+    LambertConverter::TangentProjectionParameters{p.lat0, p.lon0, p.k0, p.x0, p.y0}, ell) :
+         LambertConverter::computeProjectionParameters(
+    LambertConverter::SecantProjectionParameters{p.lon0, p.lat0, p.lat1, p.lat2, p.x0, p.y0}, ell);
+}
+
+// sibling of p: the same parameter set but for ONE parameter.  Returns the name of that parameter.
+static const char * make_sibling(vh::Rng & r, const PSet & p, PSet & q)
+{
+  q = p;
+  q.zone = -1;
+  q.name = p.name + "~sibling";
+  int k = (int)r.range(0, 3);
+  if (p.tangent && k == 0) {
+    // other scale factor on the same tangent parallel (n and e bit-identical, c differs)
+    do {
+      int km = (int)r.range(0, 3);
+      q.k0 = km == 0 ? 1.0 : km == 1 ? 0.99 : r.uni(0.99, 1.0);
+    } while (q.k0 == p.k0);
+    return "k0";
+  }
+  if (!p.tangent && k == 0) {
+    // other origin latitude between the same parallels (n, c, e identical; ys differs)
+    double s = p.lat0 < 0 ? -1.0 : 1.0, l0 = std::fabs(p.lat0) / DEG;
+    double l = l0 + r.sign() * r.uni(0.05, 2.0);
+    l = std::min(75.0, std::max(15.0, l));
+    if (l == l0) {l = l0 > 45 ? l0 - 1.0 : l0 + 1.0;}
+    q.lat0 = s * l * DEG;
+    return "latitude0";
+  }
+  if (k == 1) {
+    if (r.coin()) {q.x0 = p.x0 + r.sign() * r.logu(1e-3, 1e6); q.y0 = p.y0;} else {
+      q.x0 = r.uni(-2e6, 2e6); q.y0 = r.uni(-1e7, 1e7);
+    }
+    return "false_origin";
+  }
+  if (k == 2) {
+    // other semi-major axis, same shape: e stays bit-identical for a sphere and is re-drawn a few
+    // times to make it bit-identical for an ellipsoid (otherwise equal to 1 ulp)
+    double e0 = EarthEllipsoid(p.a, p.b).e;
+    for (int t = 0; t < 6; ++t) {
+      double s = 1.0 + r.sign() * r.logu(1e-6, 1e-3);
+      q.a = p.a * s; q.b = (p.b == p.a) ? q.a : p.b * s;
+      if (q.b > q.a) {q.b = q.a;}
+      if (EarthEllipsoid(q.a, q.b).e == e0) {break;}
+    }
+    return "semi_major_axis";
+  }
+  // other central meridian, a few degrees away so that the two boxes overlap
+  q.lon0 = p.lon0 + r.sign() * (r.coin(0.3) ? r.logu(1e-9, 1e-2) : r.uni(0.1, 5.0) * DEG);
+  q.lon0 = std::min(149.0 * DEG, std::max(-149.0 * DEG, q.lon0));
+  if (q.lon0 == p.lon0) {q.lon0 = p.lon0 > 0 ? p.lon0 - DEG : p.lon0 + DEG;}
+  return "longitude0";
+}
+
+// ------------------------------------------------------------------------------------------
 static void one_case(vh::Ctx & c, uint64_t idx)
 {
   vh::Rng r(c.seed, idx);
@@ -182,91 +282,80 @@ static void one_case(vh::Ctx & c, uint64_t idx)
   if (idx < (uint64_t)NZONES) {p = zone((int)idx);} else if (r.coin(0.03)) {
     p = zone((int)r.range(0, NZONES - 1));
   } else {p = random_set(r);}
-  const bool south = p.lat0 < 0;
   const int P = c.tier == "thorough" ? 40 : 25;
 
-  std::string cat = std::string(p.tangent ? "tangent_" : "secant_") + (south ? "south" : "north");
+  std::string cat = std::string(p.tangent ? "tangent_" : "secant_") + (p.lat0 < 0 ? "south" : "north");
   c.cat(cat);
   c.cat(std::string("ellipsoid_") + p.ell);
   if (p.zone >= 0) {c.cat("named_zone"); c.cat("zone_" + p.name);}
-  c.distinct(
-    vh::hash_doubles({(double)p.tangent, p.a, p.b, p.lat0, p.lon0, p.lat1, p.lat2, p.k0, p.x0, p.y0}),
-    !pinned_by_tests(p));
 
-  EarthEllipsoid ell(p.a, p.b);
-  Ref ref;
-  if (p.tangent) {ref.tangent(p.a, p.b, p.lat0, p.lon0, p.k0, p.x0, p.y0);} else {
-    ref.secant(p.a, p.b, p.lat0, p.lon0, p.lat1, p.lat2, p.x0, p.y0);
+  // ---- units: the set alone, or the set and a sibling used in turn on identical points
+  std::vector<Unit> U;
+  U.reserve(2);
+  U.emplace_back(p, EarthEllipsoid(p.a, p.b));
+  const char * sib = "";
+  if (r.coin(0.4)) {
+    PSet q;
+    sib = make_sibling(r, p, q);
+    U.emplace_back(q, EarthEllipsoid(q.a, q.b));
+    c.cat("sibling_converters_interleaved");
+    c.cat(std::string("sibling_differs_in_") + sib);
+    auto ca = library_constants(p), cb = library_constants(q);
+    if (ca.n == cb.n && U[0].e_lib == U[1].e_lib && ca.c != cb.c) {
+      c.count("sibling_sets_with_bit_identical_n_and_e_but_other_c");
+    }
   }
-  // conditioning of the cone constants: n = d(ln m)/d(ln t) of the two parallels, so its
-  // relative rounding error is ~ eps / |ln t1 - ln t2|; it moves a point by ~ |rho - rho0| + |rho sin|
-  // (the common part rho0 cancels between ys and rho).  Floor 1e-6 m as in the design.
-  LD cond = 1;
-  if (!p.tangent) {
-    cond = 1 / fabsl(logl(t_of(p.lat1, ref.e)) - logl(t_of(p.lat2, ref.e)));
+  const int NU = (int)U.size();
+  {
+    const PSet & q = U[NU - 1].p;
+    c.distinct(
+      vh::hash_doubles({(double)p.tangent, p.a, p.b, p.lat0, p.lon0, p.lat1, p.lat2, p.k0, p.x0, p.y0,
+          (double)NU, q.a, q.b, q.lat0, q.lon0, q.k0, q.x0, q.y0}),
+      !pinned_by_tests(p) || NU > 1);
   }
-  const LD EPS = std::numeric_limits<double>::epsilon();
-  const LD snyder_tol = std::max<LD>(
-    1e-6L, 64 * EPS * (cond + 4) * (fabsl(ref.rho0) + fabsl(p.x0) + fabsl(p.y0)));
 
   double lat = 0, lon = 0;      // current point (captured by the lambdas)
   const char * pcat = "";
+  int cu = 0;                   // unit the oracles are currently speaking about
   auto params = [&]() {
-      return vh::Params{{"south", south ? 1.0 : 0.0}, {"tangent", p.tangent ? 1.0 : 0.0},
-        {"lat0_deg", p.lat0 / DEG}, {"lat1_deg", p.lat1 / DEG}, {"lat2_deg", p.lat2 / DEG},
-        {"k0", p.k0}, {"e", (double)ref.e}, {"n", (double)ref.n},
-        {"dlat_deg", (lat - p.lat0) / DEG}, {"dlon_deg", (lon - p.lon0) / DEG},
-        {"lat", lat}, {"lon", lon}, {"zone", (double)p.zone}};
+      const Unit & u = U[cu];
+      return vh::Params{{"south", u.south ? 1.0 : 0.0}, {"tangent", u.p.tangent ? 1.0 : 0.0},
+        {"lat0_deg", u.p.lat0 / DEG}, {"lat1_deg", u.p.lat1 / DEG}, {"lat2_deg", u.p.lat2 / DEG},
+        {"k0", u.p.k0}, {"e", (double)u.ref.e}, {"n", (double)u.ref.n},
+        {"dlat_deg", (lat - u.p.lat0) / DEG}, {"dlon_deg", (lon - u.p.lon0) / DEG},
+        {"lat", lat}, {"lon", lon}, {"zone", (double)u.p.zone},
+        {"interleaved", NU > 1 ? 1.0 : 0.0}, {"unit", (double)cu}};
     };
-  auto setj = [&]() {
-      return vh::J().s("set", p.name).boolean("tangent", p.tangent).s("ellipsoid", p.ell).f("a", p.a)
-             .f("b", p.b).f("lat0", p.lat0).f("lon0", p.lon0).f("lat1", p.lat1).f("lat2", p.lat2)
-             .f("k0", p.k0).f("x0", p.x0).f("y0", p.y0).str();
+  auto setj_of = [&](const PSet & s) {
+      return vh::J().s("set", s.name).boolean("tangent", s.tangent).s("ellipsoid", s.ell).f("a", s.a)
+             .f("b", s.b).f("lat0", s.lat0).f("lon0", s.lon0).f("lat1", s.lat1).f("lat2", s.lat2)
+             .f("k0", s.k0).f("x0", s.x0).f("y0", s.y0).str();
     };
+  auto setj = [&]() {return setj_of(p);};
   auto wit = [&]() {
-      return vh::J().raw("set", setj()).s("point", pcat).f("lat", lat).f("lon", lon).str();
+      vh::J j;
+      j.raw("set", setj_of(U[cu].p)).s("point", pcat).f("lat", lat).f("lon", lon);
+      if (NU > 1) {j.s("sibling_differs_in", sib).raw("used_in_turn_with", setj_of(U[1 - cu].p));}
+      return j.str();
     };
   c.sample(cat, setj);
   if (p.zone >= 0) {c.sample("named_zone", setj);}
-
-  // ---- the converter under test, built through the public parameter-set constructors
-  LambertConverter conv = p.tangent ?
-    LambertConverter(
-    LambertConverter::TangentProjectionParameters{p.lat0, p.lon0, p.k0, p.x0, p.y0}, ell) :
-    LambertConverter(
-    LambertConverter::SecantProjectionParameters{p.lon0, p.lat0, p.lat1, p.lat2, p.x0, p.y0}, ell);
+  if (NU > 1) {
+    c.sample("sibling_converters_interleaved", [&]() {
+        return vh::J().s("differs_in", sib).raw("a", setj_of(U[0].p)).raw("b", setj_of(U[1].p)).str();
+      });
+  }
 
   auto & lw = vh::loopwatch();
-  bool inverse_dead = false;     // after a non-terminating inverse stop calling it for this set
+  const double BOX_LAT = 8 * DEG, BOX_LON = 30 * DEG, BOX_SLACK = 1e-12;
+  const double H = 2e-4;
 
-  auto fwd = [&](double la, double lo, LD out[2]) -> bool {
-      Eigen::Vector2d v = conv.toLambert(WGS84Coordinates{la, lo});
-      out[0] = v.x(); out[1] = v.y();
-      return std::isfinite(v.x()) && std::isfinite(v.y());
-    };
-  // 4th order central difference of the library's forward map along one coordinate
-  auto deriv = [&](bool along_lat, LD d[2]) -> bool {
-      const double H = 2e-4;
-      LD D[2][2];
-      for (int k = 0; k < 2; ++k) {
-        double h = k == 0 ? H : H / 2;
-        double ap = (along_lat ? lat : lon) + h, am = (along_lat ? lat : lon) - h;
-        LD Pp[2], Pm[2];
-        bool ok = along_lat ? (fwd(ap, lon, Pp) && fwd(am, lon, Pm)) : (fwd(lat, ap, Pp) && fwd(lat, am, Pm));
-        if (!ok) {return false;}
-        LD den = (LD)ap - (LD)am;
-        D[k][0] = (Pp[0] - Pm[0]) / den; D[k][1] = (Pp[1] - Pm[1]) / den;
-      }
-      d[0] = (4 * D[1][0] - D[0][0]) / 3; d[1] = (4 * D[1][1] - D[0][1]) / 3;
-      return true;
-    };
-
-  const double BOX_LAT = 8 * DEG, BOX_LON = 30 * DEG;
   for (int ip = 0; ip < P; ++ip) {
     // ---------------------------------------------------------------- point selection
-    bool on_parallel = false, on_meridian = false, at_origin = false;
-    LD k_expected = 1;
-    double dlat = 0, dlon = 0;
+    // special points are taken in turn from either unit's parameter set (b: base unit)
+    const int b = (NU > 1 && (ip & 1)) ? 1 : 0;
+    const PSet & bp = U[b].p;
+    double dlon = 0;
     auto rnd_dlon = [&]() {
         int m = (int)r.range(0, 5);
         return m == 0 ? r.sign() * r.logu(1e-12, 0.5) : m == 1 ? r.sign() * BOX_LON : r.uni(-BOX_LON, BOX_LON);
@@ -275,107 +364,181 @@ static void one_case(vh::Ctx & c, uint64_t idx)
         int m = (int)r.range(0, 5);
         return m == 0 ? r.sign() * r.logu(1e-12, 0.13) : m == 1 ? r.sign() * BOX_LAT : r.uni(-BOX_LAT, BOX_LAT);
       };
-    if (ip == 0) {
-      pcat = "origin"; at_origin = true; on_meridian = true; lat = p.lat0; lon = p.lon0;
-      if (p.tangent) {on_parallel = true; k_expected = p.k0;}
-    } else if (ip == 1 || ip == 2) {
+    const int slot = NU > 1 ? ip / 2 : ip;       // with siblings each special slot is used once per unit
+                                                 // (slots 0..5 then cover ip 0..11)
+    if (slot == 0) {
+      pcat = "origin"; lat = bp.lat0; lon = bp.lon0;
+    } else if (slot == 1 || slot == 2) {
       // standard parallel (secant: each of the two, if inside the +-8 deg box) / tangent parallel
-      double lp = p.tangent ? p.lat0 : (ip == 1 ? p.lat1 : p.lat2);
+      double lp = bp.tangent ? bp.lat0 : (slot == 1 ? bp.lat1 : bp.lat2);
       dlon = rnd_dlon();
-      if (std::fabs(lp - p.lat0) <= BOX_LAT) {
-        pcat = "on_parallel"; on_parallel = true; lat = lp; lon = p.lon0 + dlon;
-        k_expected = p.tangent ? (LD)p.k0 : 1.0L;
+      if (std::fabs(lp - bp.lat0) <= BOX_LAT) {
+        pcat = "on_parallel"; lat = lp; lon = bp.lon0 + dlon;
       } else {
         c.count("standard_parallel_outside_box");
-        pcat = "generic"; lat = p.lat0 + rnd_dlat(); lon = p.lon0 + dlon;
+        pcat = "generic"; lat = bp.lat0 + rnd_dlat(); lon = bp.lon0 + dlon;
       }
-    } else if (ip == 3 || ip == 4) {
-      pcat = "on_central_meridian"; on_meridian = true; lat = p.lat0 + rnd_dlat(); lon = p.lon0;
-    } else if (ip == 5) {
-      pcat = "box_corner"; lat = p.lat0 + r.sign() * BOX_LAT; lon = p.lon0 + r.sign() * BOX_LON;
+    } else if (slot == 3 || slot == 4) {
+      pcat = "on_central_meridian"; lat = bp.lat0 + rnd_dlat(); lon = bp.lon0;
+    } else if (slot == 5) {
+      pcat = "box_corner"; lat = bp.lat0 + r.sign() * BOX_LAT; lon = bp.lon0 + r.sign() * BOX_LON;
     } else {
-      pcat = "generic"; lat = p.lat0 + rnd_dlat(); lon = p.lon0 + rnd_dlon();
+      pcat = "generic"; lat = bp.lat0 + rnd_dlat(); lon = bp.lon0 + rnd_dlon();
     }
     c.cat(std::string("pt_") + pcat);
-    c.count("points");
 
-    // ---------------------------------------------------------------- forward
-    LD X[2];
-    bool fin = fwd(lat, lon, X);
-    if (!c.expect("forward.finite", fin, "nonfinite", params, wit)) {continue;}
-
-    // (2) origin and central meridian
-    if (at_origin) {
-      c.expect_le("origin.to_false_origin_m", hypotl(X[0] - (LD)p.x0, X[1] - (LD)p.y0), 1e-7L, "origin",
-        params, [&]() {return vh::J().raw("case", wit()).f("x", X[0]).f("y", X[1]).str();});
-    }
-    if (on_meridian) {
-      c.expect_le("central_meridian.x_m", fabsl(X[0] - (LD)p.x0), 1e-7L, "central_meridian",
-        params, [&]() {return vh::J().raw("case", wit()).f("x", X[0]).f("y", X[1]).str();});
-    }
-
-    // (4) differently factored long-double implementation
+    // ---- which units see this point (the base unit always; the other one if the point is in its
+    //      box too), in which order, and what the point is for each of them (bit-for-bit tests)
+    struct PerUnit
     {
-      LD rx, ry;
-      ref.fwd(lat, lon, rx, ry);
-      c.maxi("forward_vs_snyder_worst_m", (double)hypotl(X[0] - rx, X[1] - ry));
-      c.expect_le("forward.vs_snyder_m", hypotl(X[0] - rx, X[1] - ry), snyder_tol, "forward_vs_reference",
-        params, [&]() {
-          return vh::J().raw("case", wit()).f("x", X[0]).f("y", X[1]).f("ref_x", rx).f("ref_y", ry).str();
-        });
+      bool active = false, at_origin = false, on_meridian = false, on_parallel = false, ok = true;
+      LD k_expected = 1;
+      LD X[2] = {0, 0};
+      LD S[8][2];       // forward images of the 8 stencil points
+    };
+    PerUnit pu[2];
+    int order[2] = {0, 1};
+    if (NU > 1 && r.coin()) {order[0] = 1; order[1] = 0;}
+    int nactive = 0;
+    for (int u = 0; u < NU; ++u) {
+      const PSet & s = U[u].p;
+      PerUnit & q = pu[u];
+      q.active = (u == b) ||
+        (std::fabs(lat - s.lat0) <= BOX_LAT + BOX_SLACK && std::fabs(lon - s.lon0) <= BOX_LON + BOX_SLACK);
+      if (!q.active) {c.count("point_outside_sibling_box"); continue;}
+      ++nactive;
+      q.at_origin = lat == s.lat0 && lon == s.lon0;
+      q.on_meridian = lon == s.lon0;
+      q.on_parallel = s.tangent ? lat == s.lat0 : (lat == s.lat1 || lat == s.lat2);
+      q.k_expected = s.tangent ? (LD)s.k0 : 1.0L;
+      c.count("points");
     }
+    if (nactive > 1) {c.count("points_evaluated_on_both_siblings_in_turn");}
 
-    // (1) local scales from finite differences of the library's own forward map
-    {
-      LD dphi[2], dlam[2];
-      if (!c.expect("fd.finite", deriv(true, dphi) && deriv(false, dlam), "nonfinite", params, wit)) {continue;}
-      LD nphi = hypotl(dphi[0], dphi[1]), nlam = hypotl(dlam[0], dlam[1]);
-      LD hs = nphi / ref.M(lat), ks = nlam / ref.Ncos(lat);
-      LD cosang = (dphi[0] * dlam[0] + dphi[1] * dlam[1]) / (nphi * nlam);
-      LD cross = dlam[0] * dphi[1] - dlam[1] * dphi[0];     // east x north must stay positive
-      auto w2 = [&]() {
-          return vh::J().raw("case", wit()).f("h_meridian", hs).f("k_parallel", ks).f("cos_angle", cosang).str();
-        };
-      c.expect_le("conformal.h_over_k", fabsl(hs / ks - 1), 1e-9L, "not_conformal", params, w2);
-      c.expect_le("conformal.orthogonality", fabsl(cosang), 1e-9L, "not_conformal", params, w2);
-      c.expect("conformal.orientation", cross > 0, "not_conformal", params, w2);
-      if (on_parallel) {
-        const char * o1 = p.tangent ? "scale.tangent_parallel_k" : "scale.standard_parallel_k";
-        const char * o2 = p.tangent ? "scale.tangent_parallel_h" : "scale.standard_parallel_h";
-        c.expect_le(o1, fabsl(ks - k_expected), 1e-9L, "scale_on_parallel", params, w2);
-        c.expect_le(o2, fabsl(hs - k_expected), 1e-9L, "scale_on_parallel", params, w2);
+    auto fwd = [&](int u, double la, double lo, LD out[2]) -> bool {
+        Eigen::Vector2d v = U[u].conv.toLambert(WGS84Coordinates{la, lo});
+        out[0] = v.x(); out[1] = v.y();
+        return std::isfinite(v.x()) && std::isfinite(v.y());
+      };
+
+    // ---------------------------------------------------------------- forward, units in turn
+    for (int o = 0; o < NU; ++o) {
+      int u = order[o];
+      if (!pu[u].active) {continue;}
+      cu = u;
+      pu[u].ok = c.expect("forward.finite", fwd(u, lat, lon, pu[u].X), "nonfinite", params, wit);
+    }
+    // ---- stencil of the 4th order central differences, every stencil point on the units in turn
+    //      0,1: lat +-H   2,3: lat +-H/2   4,5: lon +-H   6,7: lon +-H/2
+    double sla[8], slo[8];
+    for (int k = 0; k < 8; ++k) {
+      double h = ((k >> 1) & 1) ? H / 2 : H;
+      double sg = (k & 1) ? -1.0 : 1.0;
+      sla[k] = k < 4 ? lat + sg * h : lat;
+      slo[k] = k < 4 ? lon : lon + sg * h;
+    }
+    bool fd_ok[2] = {true, true};
+    for (int k = 0; k < 8; ++k) {
+      for (int o = 0; o < NU; ++o) {
+        int u = order[o];
+        if (!pu[u].active || !pu[u].ok) {continue;}
+        if (!fwd(u, sla[k], slo[k], pu[u].S[k])) {fd_ok[u] = false;}
       }
     }
 
-    // (3) inverse of the forward image
-    if (inverse_dead) {c.count("inverse_not_called_after_nontermination"); continue;}
-    lw.reset_case();
-    WGS84Coordinates back = conv.toWGS84(Eigen::Vector2d((double)X[0], (double)X[1]));
-    c.maxi("lambert_loop_iterations", (double)lw.case_max);
-    auto w3 = [&]() {
-        return vh::J().raw("case", wit()).f("x", X[0]).f("y", X[1]).f("lat_back", back.latitude)
-               .f("lon_back", back.longitude).f("loop_iterations", (uint64_t)lw.case_max).str();
-      };
-    if (lw.tripped) {
-      c.violation("nontermination", params(), w3());
-      inverse_dead = true;
-      continue;
-    }
-    if (!c.expect("inverse.finite", std::isfinite(back.latitude) && std::isfinite(back.longitude),
-      "nonfinite", params, w3)) {continue;}
-    c.count(south ? "roundtrip_points_south" : "roundtrip_points_north");
-    c.expect_le("roundtrip.lat_rad", fabsl((LD)back.latitude - (LD)lat), 1e-11L, "roundtrip", params, w3);
-    c.expect_le("roundtrip.lon_rad", fabsl((LD)back.longitude - (LD)lon), 1e-11L, "roundtrip", params, w3);
+    // ---------------------------------------------------------------- oracles per unit
+    for (int o = 0; o < NU; ++o) {
+      const int u = order[o];
+      PerUnit & q = pu[u];
+      if (!q.active || !q.ok) {continue;}
+      cu = u;
+      Unit & un = U[u];
+      const PSet & s = un.p;
+      LD * X = q.X;
 
-    // sub-oracle: the two public static helpers are mutual inverses
-    if ((ip & 3) == 0) {
-      double e = ell.e;
+      // (2) origin and central meridian
+      if (q.at_origin) {
+        c.expect_le("origin.to_false_origin_m", hypotl(X[0] - (LD)s.x0, X[1] - (LD)s.y0), 1e-7L, "origin",
+          params, [&]() {return vh::J().raw("case", wit()).f("x", X[0]).f("y", X[1]).str();});
+      }
+      if (q.on_meridian) {
+        c.expect_le("central_meridian.x_m", fabsl(X[0] - (LD)s.x0), 1e-7L, "central_meridian",
+          params, [&]() {return vh::J().raw("case", wit()).f("x", X[0]).f("y", X[1]).str();});
+      }
+
+      // (4) differently factored long-double implementation
+      {
+        LD rx, ry;
+        un.ref.fwd(lat, lon, rx, ry);
+        c.maxi("forward_vs_snyder_worst_m", (double)hypotl(X[0] - rx, X[1] - ry));
+        c.expect_le("forward.vs_snyder_m", hypotl(X[0] - rx, X[1] - ry), un.snyder_tol, "forward_vs_reference",
+          params, [&]() {
+            return vh::J().raw("case", wit()).f("x", X[0]).f("y", X[1]).f("ref_x", rx).f("ref_y", ry).str();
+          });
+      }
+
+      // (1) local scales from finite differences of the library's own forward map
+      if (c.expect("fd.finite", fd_ok[u], "nonfinite", params, wit)) {
+        LD dphi[2], dlam[2];
+        for (int d = 0; d < 2; ++d) {
+          LD * out = d == 0 ? dphi : dlam;
+          const int k0 = d * 4;
+          LD den1 = d == 0 ? (LD)sla[k0] - (LD)sla[k0 + 1] : (LD)slo[k0] - (LD)slo[k0 + 1];
+          LD den2 = d == 0 ? (LD)sla[k0 + 2] - (LD)sla[k0 + 3] : (LD)slo[k0 + 2] - (LD)slo[k0 + 3];
+          for (int i = 0; i < 2; ++i) {
+            LD D1 = (q.S[k0][i] - q.S[k0 + 1][i]) / den1;         // step H
+            LD D2 = (q.S[k0 + 2][i] - q.S[k0 + 3][i]) / den2;     // step H/2
+            out[i] = (4 * D2 - D1) / 3;
+          }
+        }
+        LD nphi = hypotl(dphi[0], dphi[1]), nlam = hypotl(dlam[0], dlam[1]);
+        LD hs = nphi / un.ref.M(lat), ks = nlam / un.ref.Ncos(lat);
+        LD cosang = (dphi[0] * dlam[0] + dphi[1] * dlam[1]) / (nphi * nlam);
+        LD cross = dlam[0] * dphi[1] - dlam[1] * dphi[0];     // east x north must stay positive
+        auto w2 = [&]() {
+            return vh::J().raw("case", wit()).f("h_meridian", hs).f("k_parallel", ks).f("cos_angle", cosang).str();
+          };
+        c.expect_le("conformal.h_over_k", fabsl(hs / ks - 1), 1e-9L, "not_conformal", params, w2);
+        c.expect_le("conformal.orthogonality", fabsl(cosang), 1e-9L, "not_conformal", params, w2);
+        c.expect("conformal.orientation", cross > 0, "not_conformal", params, w2);
+        if (q.on_parallel) {
+          const char * o1 = s.tangent ? "scale.tangent_parallel_k" : "scale.standard_parallel_k";
+          const char * o2 = s.tangent ? "scale.tangent_parallel_h" : "scale.standard_parallel_h";
+          c.expect_le(o1, fabsl(ks - q.k_expected), 1e-9L, "scale_on_parallel", params, w2);
+          c.expect_le(o2, fabsl(hs - q.k_expected), 1e-9L, "scale_on_parallel", params, w2);
+        }
+      }
+
+      // (3) inverse of the forward image
+      if (un.inverse_dead) {c.count("inverse_not_called_after_nontermination"); continue;}
       lw.reset_case();
-      double L = LambertConverter::computeIsometricLatitude(lat, e);
-      double lb = LambertConverter::computeLatitude(L, e);
-      if (lw.tripped) {c.violation("nontermination", params(), wit()); inverse_dead = true; continue;}
-      c.expect_le("isometric_latitude.mutual_inverse_rad", fabsl((LD)lb - (LD)lat), 1e-11L, "roundtrip",
-        params, [&]() {return vh::J().raw("case", wit()).f("isolat", L).f("lat_back", lb).str();});
+      WGS84Coordinates back = un.conv.toWGS84(Eigen::Vector2d((double)X[0], (double)X[1]));
+      c.maxi("lambert_loop_iterations", (double)lw.case_max);
+      auto w3 = [&]() {
+          return vh::J().raw("case", wit()).f("x", X[0]).f("y", X[1]).f("lat_back", back.latitude)
+                 .f("lon_back", back.longitude).f("loop_iterations", (uint64_t)lw.case_max).str();
+        };
+      if (lw.tripped) {
+        c.violation("nontermination", params(), w3());
+        un.inverse_dead = true;
+        continue;
+      }
+      if (!c.expect("inverse.finite", std::isfinite(back.latitude) && std::isfinite(back.longitude),
+        "nonfinite", params, w3)) {continue;}
+      c.count(un.south ? "roundtrip_points_south" : "roundtrip_points_north");
+      c.expect_le("roundtrip.lat_rad", fabsl((LD)back.latitude - (LD)lat), 1e-11L, "roundtrip", params, w3);
+      c.expect_le("roundtrip.lon_rad", fabsl((LD)back.longitude - (LD)lon), 1e-11L, "roundtrip", params, w3);
+
+      // sub-oracle: the two public static helpers are mutual inverses
+      if ((ip & 3) == 0) {
+        double e = un.e_lib;
+        lw.reset_case();
+        double L = LambertConverter::computeIsometricLatitude(lat, e);
+        double lb = LambertConverter::computeLatitude(L, e);
+        if (lw.tripped) {c.violation("nontermination", params(), wit()); un.inverse_dead = true; continue;}
+        c.expect_le("isometric_latitude.mutual_inverse_rad", fabsl((LD)lb - (LD)lat), 1e-11L, "roundtrip",
+          params, [&]() {return vh::J().raw("case", wit()).f("isolat", L).f("lat_back", lb).str();});
+      }
     }
   }
 }
